@@ -16,6 +16,14 @@ class _StickMarker:
 _STICK_MARKER = _StickMarker()
 
 
+class _Block(list):
+    """The lines of an already formatted sub level.
+
+    As opposed to a simple element (eg. a phrase, which may contain a new line of its own),
+    its lines can be re-indented.
+    """
+
+
 class Prettifier(object):
     """Class to generate a pretty printer.
     """
@@ -101,7 +109,10 @@ class Prettifier(object):
                 assert last is not None, "_STICK_MARKER should never be first !"
                 sticking = True
             elif sticking:
-                last += " " + current
+                # the first line of current continues the last line of last
+                last = last if isinstance(last, _Block) else [last]
+                current = current if isinstance(current, _Block) else [current]
+                last = _Block(last[:-1] + [last[-1] + " " + current[0]] + current[1:])
                 sticking = False
             else:
                 if last is not None:
@@ -115,18 +126,27 @@ class Prettifier(object):
 
         :return string: prettified expression
         """
+        return "\n".join(self._lines(chain_with_counts, char_counts, level, in_one_liner))
+
+    def _lines(self, chain_with_counts, char_counts, level=0, in_one_liner=False):
+        """lines of the prettified expression (see _concatenates)
+
+        Simple elements are never split, as a phrase or a regex may contain a new line.
+        """
         # evaluate if it's feasible in one-line
         one_liner = in_one_liner or char_counts < self.max_len - (self.indent * level)
         new_level = level if one_liner else level + 1
         elements = [
-            self._concatenates(c, n, level=new_level, in_one_liner=one_liner)
+            self._lines(c, n, level=new_level, in_one_liner=one_liner)
             if isinstance(c, list)
             else c
             for c, n in chain_with_counts]
         elements = self._apply_stick(elements)
         prefix = self.prefix if level and not in_one_liner else ""
-        join_char = " " if one_liner else ("\n" + prefix)
-        return prefix + join_char.join(line for c in elements for line in c.split("\n"))
+        lines = [line for c in elements for line in (c if isinstance(c, _Block) else [c])]
+        if one_liner:
+            return _Block([prefix + " ".join(lines)])
+        return _Block([prefix + line for line in lines])
 
     def __call__(self, tree):
         """Pretty print the query represented by tree
